@@ -7,12 +7,16 @@ import Driver.SerialOps
 import Driver.ShardOps
 import Driver.ChunkOps
 import Driver.FlattenOps
+import Driver.RngOps
+import Driver.CollectiveOps
 open Lean Ts.Drv
 
 namespace Ts.Drv
 
 /-- All registered op handlers; first match wins. -/
 def handlers : List Handler := [
+  CollectiveOps.handle,
+  RngOps.handle,
   FlattenOps.handle,
   ChunkOps.handle,
   ShardOps.handle,
